@@ -35,6 +35,8 @@ def run(tier):
     rep.extra.update(info)
     from harness import missing_graph
     missing_graph.run(rep, tier, wd)
+    from harness import uncertainty
+    uncertainty.run(rep, tier, wd)
     rep.extra["model_drift_count"] = len(drift)
     rep.extra["model_drift"] = drift[:5]
     m2 = [e for e in events.values() if e["ev"] == "merge2"]
